@@ -5,6 +5,12 @@ ROOT = os.path.dirname(os.path.abspath(__file__))
 
 CLAIMED = {
  # id: (category, technique, level text, level note, design ref)
+ "C07": ("exploration", "runtime monitor: exact schoolbook oracle (i128) on DFT-domain pipelines read back through the inverse transform, four backends",
+         "Every DFT-domain operation is executed on random shapes (incl. mismatched sizes, offsets past the end, masks, all value classes with aligned extreme digits) at "
+         "the largest operand width the backend's exactness predicate admits, and the big-accumulator result is compared bit for bit with the exact negacyclic / "
+         "bivariate product (all coefficients for N <= 256, a random subset for N up to 2^16). Held on the executions observed.",
+         "Trusted: the schoolbook model in c07.rs; the admissible-domain predicate (conservative by 4-5 bits on the pinned tree); outside it nothing is asserted.",
+         "DESIGN.md §C07"),
  "C08": ("exploration", "runtime monitor: exact big-integer value of limb vectors before/after each call; exhaustive small scopes + random; release and debug-assertions builds",
          "Every normalisation / shift / fused form (small and big accumulators, same and cross radix, four backends) and every integer encode/decode routine is executed "
          "and its output compared on the torus with the exact value of the input times 2^offset (tolerance: the property's one unit of the last output limb, exact when the "
